@@ -1,0 +1,67 @@
+//go:build verif
+
+package route
+
+import (
+	"crypto/tls"
+	"net/http"
+	"net/url"
+
+	"github.com/gobwas/glob"
+)
+
+// Verification hooks for property C03 (request routing): thin exported wrappers around the unexported
+// host-selection helpers. No behaviour is changed.
+
+// VerifRequest builds the request value Table.Lookup looks at: Host, URL.Path and whether TLS is set.
+func VerifRequest(host string, isTLS bool, path string) *http.Request {
+	req := &http.Request{Host: host, URL: &url.URL{Path: path}, Header: http.Header{}}
+	if isTLS {
+		req.TLS = &tls.ConnectionState{}
+	}
+	return req
+}
+
+// VerifNormalizeHost exposes normalizeHost / normalizeHostNoLower.
+func VerifNormalizeHost(host string, isTLS, lower bool) string {
+	if lower {
+		return normalizeHost(host, isTLS)
+	}
+	return normalizeHostNoLower(host, isTLS)
+}
+
+// VerifMatchingHosts exposes matchingHosts (globCache != nil) and matchingHostNoGlob (globCache == nil).
+func VerifMatchingHosts(t Table, req *http.Request, globCache *GlobCache) []string {
+	if globCache == nil {
+		return t.matchingHostNoGlob(req)
+	}
+	return t.matchingHosts(req, globCache)
+}
+
+// VerifSortHosts exposes sortHostsReverseHostPort (on a copy).
+func VerifSortHosts(hosts []string) []string {
+	return sortHostsReverseHostPort(append([]string(nil), hosts...))
+}
+
+// VerifRouteOf finds the route of the table that holds the target (pointer identity).
+func VerifRouteOf(t Table, tg *Target) (host, path string, ok bool) {
+	for _, rs := range t {
+		for _, r := range rs {
+			for _, x := range r.Targets {
+				if x == tg {
+					return r.Host, r.Path, true
+				}
+			}
+		}
+	}
+	return "", "", false
+}
+
+// VerifGlobMatch compiles the pattern the way the table code does (no separators) and matches s.
+func VerifGlobMatch(pattern, s string) (matched, compiled bool) {
+	g, err := glob.Compile(pattern)
+	if err != nil {
+		return false, false
+	}
+	return g.Match(s), true
+}
